@@ -19,7 +19,7 @@ DEFAULT = dict(
     RogueHandshake=False, PartialFrames=False,
     Intervals=set(),
     Fire=False, Close=True, Erase=False, IdOps=False, Crash=False, Garbage=False, BadFrames=set(),
-    SendWhileDisc=False, PeerWhileDisc=False, LateFrames=False, CrossVersion=False,
+    SendWhileDisc=False, PeerWhileDisc=False, LateFrames=False, CrossVersion=False, Restore=False,
     # not TLC constants:
     invariants=[],
 )
@@ -96,6 +96,9 @@ SLICES = {
     "timers_s_all": dict(Roles={"server"}, Vers={"v311", "v50"}, AppKinds={"pubrec", "pubcomp"},
                          PeerKinds={"publish", "pubrel", "subscribe", "unsubscribe", "pingreq", "auth"}, QosSet={1, 2}, InPids={1},
                          KAs={10}, OptSets=[set(), {"auto_pub"}], Fire=True, MaxConns=1, MaxHeld=0),
+    # SUBSCRIBE and UNSUBSCRIBE in flight together, acknowledged by matching, crossed and unknown SUBACK / UNSUBACK
+    "subs": dict(Vers={"v311", "v50"}, AppKinds={"subscribe", "unsubscribe"}, PeerKinds={"suback", "unsuback"}, ExtraPids={9},
+                 MaxHeld=1, MaxUsed=2, MaxConns=2, Cleans={True, False}, SPs={True, False}, ConnSEIs={NA, 10}),
     # send gate matrix (C11)
     "gate": dict(Roles={"client", "server", "any"}, Vers={"v311", "v50", "undet"},
                  AppKinds={"publish", "puback", "pubrec", "pubrel", "pubcomp", "subscribe", "suback", "unsubscribe", "unsuback",
@@ -122,6 +125,10 @@ SLICES = {
                     QosSet={1, 2}, InPids={0, 1}, ExtraPids={0, 9}, OptSets=[set(), {"auto_pub"}], Garbage=True,
                     ConnTAMs={NA, 0}, ConnRMs={NA, 1}, ConnMPSs={NA, 1}, AckTAMs={NA, 0}, AckMPSs={NA, 1}, PeerWhileDisc=True,
                     MaxConns=2, MaxHeld=0),
+    # publishes handed in before the handshake is complete (stored, not yet sent) and acknowledgements that arrive that early
+    "early_acks": dict(Roles={"server", "client"}, Vers={"v311", "v50"}, AppKinds={"publish"}, PeerKinds={"puback", "pubrec", "pubcomp"},
+                       QosSet={1, 2}, SendWhileDisc=True, PeerWhileDisc=True, ConnRMs={NA, 1}, AckRMs={NA, 1}, ConnSEIs={10}, Cleans={False},
+                       OptSets=[set(), {"offline"}], MaxHeld=1, MaxUsed=1, MaxConns=1),
     # identifier extremes through the connection API (register 65535 / 0, then use and complete the exchange)
     "ids_edge": dict(Roles={"client"}, Vers={"v311", "v50"}, AppKinds={"subscribe", "publish"}, PeerKinds={"suback", "puback"}, QosSet={1},
                      IdOps=True, ExtraPids={65535}, MaxHeld=2, MaxUsed=2, MaxConns=1),
@@ -145,10 +152,14 @@ SLICES = {
                     Cleans={True}, MaxConns=2, Fire=True, PartialFrames=True, MaxUsed=1),
     # export / crash / restore (C16)
     "crash_out": dict(Roles={"client"}, Vers={"v311", "v50"}, AppKinds={"publish", "pubrel"}, PeerKinds=ACKS, QosSet={1, 2}, MaxConns=2,
-                      Cleans={False}, SPs={True}, ConnSEIs={10}, AckRMs={NA, 2}, Crash=True, Close=False),
+                      Cleans={False}, SPs={True}, ConnSEIs={10}, AckRMs={NA, 2}, Rcs={0, 128}, Crash=True, Close=False),
     # three exchanges in flight, acknowledged out of order, then the export / crash
     "crash_order": dict(Roles={"client"}, Vers={"v311"}, AppKinds={"publish"}, PeerKinds={"puback"}, QosSet={1}, MaxConns=2,
                         Cleans={False}, SPs={True}, MaxUsed=3, MaxHeld=1, Crash=True, Close=False),
+    # an export - also a malformed one - restored into a fresh object, then the session is resumed
+    "restore_bad": dict(Roles={"client"}, Vers={"v311", "v50"}, AppKinds={"publish"}, PeerKinds={"puback", "pubrec", "pubcomp"}, QosSet={1},
+                        OptSets=[set(), {"auto_pub"}], MaxConns=1, Cleans={False}, SPs={True, False}, ConnSEIs={10}, ExtraPids={1, 2},
+                        MaxHeld=1, MaxUsed=3, Restore=True),
     "crash_in": dict(Roles={"client", "server"}, Vers={"v311", "v50"}, AppKinds={"pubrec", "pubcomp"}, PeerKinds={"publish", "pubrel"},
                      QosSet={2}, InPids={1, 2}, MaxConns=2, Cleans={False}, SPs={True}, ConnSEIs={10}, Crash=True, Close=False, MaxHeld=0,
                      OptSets=[set(), {"auto_pub"}]),
@@ -156,7 +167,7 @@ SLICES = {
 
 
 # Slices of MC_Pair.tla (two endpoints, C01)
-PAIR_DEFAULT = dict(Ver="v311", AutoPub=True, AutoPing=True, KA=0, SRM=NA, CRM=NA, STAM=NA, CTAM=NA,
+PAIR_DEFAULT = dict(Ver="v311", AutoPub=True, AutoPing=True, KA=0, SRM=NA, CRM=NA, STAM=NA, CTAM=NA, SMPS=NA, CMPS=NA, AutoMap=False,
                     MaxOps=2, MaxLoss=1, MaxFire=0, Ops={"pub0", "pub1", "pub2"}, Sides={"c", "s"}, AliasModes={"none"},
                     Chunks=False, EndpointProps={"C05", "C06", "C07", "C08", "C12", "C13", "C14", "C15", "C19"})
 PAIR_SLICES = {
@@ -166,6 +177,8 @@ PAIR_SLICES = {
     "pair_v50_auto": dict(Ver="v50", SRM=1, CRM=2, Ops={"pub1", "pub2"}),
     "pair_v50_manual": dict(Ver="v50", AutoPub=False, SRM=2, Ops={"pub1", "pub2", "unsub"}, Sides={"s"}),
     "pair_v50_alias": dict(Ver="v50", STAM=1, CTAM=1, AliasModes={"none", "bind", "use"}, Ops={"pub0", "pub1"}, MaxOps=3, MaxLoss=1),
+    # automatic alias mapping next to a Maximum Packet Size that the aliased QoS>0 PUBLISH (14 bytes) exceeds and the others do not
+    "pair_v50_automap": dict(Ver="v50", STAM=1, CTAM=1, SMPS=13, CMPS=13, AutoMap=True, Ops={"pub0", "pub1"}, MaxOps=3, MaxLoss=0),
     "pair_v50_rm3": dict(Ver="v50", SRM=1, CRM=NA, Ops={"pub1", "pub2"}, Sides={"c"}, MaxOps=3, MaxLoss=1),
     "pair_v50_ka": dict(Ver="v50", KA=10, MaxFire=1, AutoPing=False, Ops={"pub1", "ping"}, Chunks=True, MaxOps=1),
 }
